@@ -29,6 +29,12 @@
 // into the leaf, Set): that tree denotes the changed tree, the others still
 // marshal to the bytes they were decoded from.
 //
+// Family "keylen" (keylen.go): the length dimensions - ONE property name (and
+// two names in one container, and a String value) of every length 0..300 and
+// around every power-of-two boundary up to 65535, in every container kind,
+// place and nesting depth 1 and 2, and containers of 0..300 members - built
+// through the API, against the exact encoding of the tree.
+//
 // Violation keys are "<family>/<clause>/<feature>" where the feature is found
 // by neutralising one alphabet element at a time (non-empty strict arrays ->
 // null, repeated keys renamed, count hints made honest, ...) until the case
@@ -371,7 +377,7 @@ func run(c *hl.Ctx) {
 		"observed by the independent AMF0 decoder. Family bytes: reference encodings of ALL wire-level trees with <= M nodes (keys with repetition, empty key, " +
 		"ECMA count hints n/0/n+1/n-1/0xFFFFFFFF) x suffix {none, stray byte, another value}; plus boolean body bytes 0..255. " +
 		"Non-trivial = distinct case (hash of family + encoding) that the library marshalled/decoded successfully and that passed every clause; " +
-		"strings the library rejects are counted separately (bytes_rejected_by_library) and are not non-trivial." + historyRule + nearValidRule + indepRule)
+		"strings the library rejects are counted separately (bytes_rejected_by_library) and are not non-trivial." + historyRule + nearValidRule + indepRule + keyLenRule)
 	c.Assume("the reference AMF0 codec (engine/ref/amf0ref, written from amf0_spec_121207) is correct; it is cross-checked against itself on every byte string",
 		"string contents are fixed per length class (0, 1, 2, 65535 bytes); number alphabet is the listed 11 bit patterns",
 		"strict-array elements are given the keys the API demands by a fixed rotation over {\"0\",\"\",\"b\",\"ab\"} (decimal indices beyond 4 elements)")
@@ -403,6 +409,8 @@ func run(c *hl.Ctx) {
 	}
 	// family history (history.go): small, so it runs first
 	idx = runHistory(c, idx, 0, 4)
+	// family keylen (keylen.go): name / string lengths and member counts, one by one
+	idx = runKeyLen(c, idx)
 	// family indep (indep.go): independence of the values the decoder hands out
 	idx = runIndep(c, idx)
 	// family nearvalid (nearvalid.go): strings one edit away from the encodings of small wire trees
@@ -549,6 +557,12 @@ func replay(c *hl.Ctx, raw json.RawMessage) {
 			panic(fmt.Sprintf("indep-buffer replay: %v", err))
 		}
 		checkBuffer(c, cs.Tree)
+	case "keylen":
+		var cs klCase
+		if err := json.Unmarshal(raw, &cs); err != nil {
+			panic(err)
+		}
+		replayKeyLen(c, &cs)
 	case "history":
 		var cs histCase
 		if err := json.Unmarshal(raw, &cs); err != nil {
